@@ -290,6 +290,9 @@ def find_path_cp(graph, start, goals, cut_edge=None, cut_node=None,
                 val = bool(env[atom.key[1]]) == atom.key[2]
                 if val != (edge.kind == 'true'):
                     return []
+            elif atom.key[0] == 'truth' and atom.key[1].isidentifier():
+                # remember what the test established about a plain local
+                env[atom.key[1]] = (edge.kind == 'true') == atom.key[2]
             if atom.key[0] == 'is' and atom.key[2] == 'None' and \
                     atom.key[1] in env:
                 val = (env[atom.key[1]] is None) == atom.key[3]
@@ -528,6 +531,8 @@ class SetExpr(object):
         for name, recog in self.bases.items():
             try:
                 if recog(expr):
+                    if hasattr(self, '_used'):
+                        self._used.add(name)
                     return env[name]
             except Exception:  # pylint: disable=broad-except
                 pass
@@ -633,3 +638,156 @@ def show_table(table):
     return ', '.join('{%s}' % '&'.join(sorted(k)) for k, v in
                      sorted(table.items(), key=lambda kv: sorted(kv[0]))
                      if v) or 'empty'
+
+
+# ---------------------------------------------------------------------------
+# reaching definitions of local names
+# ---------------------------------------------------------------------------
+
+def reaching_defs(graph):
+    """dict node -> {name: frozenset(def nodes)} holding on entry of node.
+    A def node is a CFG node assigning the plain local name (Assign /
+    AugAssign / for target / with-as)."""
+    import collections
+    defs_of = {}
+    for node in graph.nodes:
+        names = set()
+        for name in N.assigned_targets(node):
+            if '.' not in name and '[' not in name:
+                names.add(name)
+        defs_of[node] = names
+    state = {graph.entry: {}}
+    work = collections.deque([graph.entry])
+    while work:
+        node = work.popleft()
+        cur = state[node]
+        for edge in node.succ:
+            out = dict(cur)
+            names = set(defs_of[node])
+            if node.kind == 'for' and edge.kind == 'iter':
+                names |= N.for_targets(node)
+            if edge.kind != 'exc':
+                for name in names:
+                    out[name] = frozenset([node])
+            old = state.get(edge.dst)
+            if old is None:
+                state[edge.dst] = out
+                work.append(edge.dst)
+            else:
+                merged = dict(old)
+                changed = False
+                for name, dset in out.items():
+                    new = merged.get(name, frozenset()) | dset
+                    if new != merged.get(name):
+                        merged[name] = new
+                        changed = True
+                if changed:
+                    state[edge.dst] = merged
+                    work.append(edge.dst)
+    return state
+
+
+def def_values(graph, rdefs, node, name):
+    """Right-hand sides of the definitions of ``name`` reaching ``node``
+    (None entries for definitions that are not plain assignments)."""
+    out = []
+    for dnode in sorted(rdefs.get(node, {}).get(name, ()),
+                        key=lambda n: n.id):
+        stmt = dnode.ast
+        if dnode.kind == 'stmt' and isinstance(stmt, ast.Assign) and \
+                len(stmt.targets) == 1 and \
+                isinstance(stmt.targets[0], ast.Name):
+            out.append(stmt.value)
+        else:
+            out.append(None)
+    return out
+
+
+class FlowSetExpr(SetExpr):
+    """SetExpr whose local names are resolved flow-sensitively at a CFG
+    node; when several definitions reach, every combination is evaluated
+    and tables() returns the list of possible tables."""
+
+    def __init__(self, func, graph, bases, subset=()):
+        SetExpr.__init__(self, func, bases, subset)
+        self.graph = graph
+        self.rdefs = reaching_defs(graph)
+        self.at = None
+        self.choice = {}
+
+    def member(self, expr, env, depth=0):
+        if isinstance(expr, ast.Name):
+            for name, recog in self.bases.items():
+                try:
+                    if recog(expr):
+                        self._used.add(name)
+                        return env[name]
+                except Exception:  # pylint: disable=broad-except
+                    pass
+            vals = def_values(self.graph, self.rdefs, self.at, expr.id)
+            if not vals:
+                return None
+            idx = self.choice.get(expr.id, 0)
+            if idx >= len(vals) or vals[idx] is None:
+                return None
+            self._multi[expr.id] = len(vals)
+            return self.member(vals[idx], env, depth + 1)
+        if isinstance(expr, ast.Subscript) and \
+                isinstance(expr.value, ast.Name) and \
+                isinstance(expr.ctx, ast.Load):
+            # value read back from a local dict: D[k] <- the value stored
+            # with D[k] = v (evaluated where it was stored)
+            stores = [n for n in self.graph.nodes if n.kind == 'stmt' and
+                      isinstance(n.ast, ast.Assign) and
+                      len(n.ast.targets) == 1 and
+                      isinstance(n.ast.targets[0], ast.Subscript) and
+                      N.txt(n.ast.targets[0].value) == expr.value.id]
+            if len(stores) == 1:
+                saved = self.at
+                self.at = stores[0]
+                try:
+                    return self.member(stores[0].ast.value, env, depth + 1)
+                finally:
+                    self.at = saved
+            return None
+        if isinstance(expr, ast.Call) and callee_text(expr) in (
+                'set', 'frozenset', 'dict', 'list') and not expr.args:
+            return False
+        return SetExpr.member(self, expr, env, depth)
+
+    def tables(self, expr, at):
+        """Possible membership tables of expr at node ``at`` (one per
+        combination of reaching definitions).  Each table is projected on
+        the base sets it actually refers to: regions in which an
+        unreferenced base is true are dropped."""
+        import itertools
+        self.at = at
+        self.choice = {}
+        self._multi = {}
+        self.used_all = None
+        first = self._projected(expr)
+        if first is None:
+            return None
+        names = sorted(k for k, v in self._multi.items() if v > 1)
+        out = [first]
+        if names:
+            out = []
+            ranges = [range(self._multi[n]) for n in names]
+            for combo in itertools.product(*ranges):
+                self.choice = dict(zip(names, combo))
+                tab = self._projected(expr)
+                if tab is None:
+                    return None
+                out.append(tab)
+        return out
+
+    def _projected(self, expr):
+        self._used = set()
+        tab = self.table(expr)
+        if tab is None:
+            return None
+        used = set(self._used)
+        self.used_all = used if self.used_all is None else \
+            (self.used_all & used)
+        return {region: val for region, val in tab.items()
+                if region <= used}
